@@ -49,47 +49,7 @@ SCHEMA = {   # loader -> names the property's layouts use (KS name first, ALF pa
 }
 
 
-def find_path_summary(fxi, t, call, args, kwargs, recv):
-    root = 'unknown'
-    if isinstance(recv, O) and isinstance(recv.fields.get('dir_path'), P):
-        root = recv.fields['dir_path'].root
-    names = []
-    for a in args:
-        names.append(a.v if isinstance(a, K) and isinstance(a.v, str) else '*')
-    return P(root, '|'.join(names) if names else None)
-
-
-def reader_summary(fxi, t, call, args, kwargs, recv):
-    """get_ephys_reader(obj, **kw): the class is chosen dynamically - every concrete reader constructor may run."""
-    repo = fxi.repo
-    base = repo.cls(TR, 'BaseEphysReader')
-    kw = dict(kwargs)
-    if 'n_channels_dat' in kw:
-        kw['n_channels'] = kw.pop('n_channels_dat')
-    out = None
-    for c in repo.subclasses(base):
-        init = repo.lookup_method(c, '__init__')
-        if init is None:
-            continue
-        obj = O(c)
-        a0 = args[0] if args else U
-        if c.name.startswith('Random'):
-            continue
-        fxi.call_function(init, call, [a0], kw, obj)
-        out = fx.join(out, obj)
-    return out if out is not None else U
-
-
-def make_fx(repo):
-    f = Fx(repo)
-    f.summaries[(M, 'TemplateModel._find_path')] = find_path_summary
-    f.summaries[(TR, 'get_ephys_reader')] = reader_summary
-    return f
-
-
-def model_obj(repo, root='DATASET'):
-    cls = repo.cls(M, 'TemplateModel')
-    return O(cls, {'dir_path': P(root, ''), 'dat_path': L([P('RAW', 'raw.dat')]), 'sample_rate': U, 'n_channels_dat': U, 'dtype': U, 'offset': U})
+from vlib.fxmodel import make_fx, model_obj, check_find_path_anchor
 
 
 def classify(e):
@@ -114,6 +74,8 @@ def guard_texts(e):
 def f1_effects(ctx):
     repo = ctx.repo
     init = repo.func(M, 'TemplateModel.__init__')
+    if not check_find_path_anchor(repo):
+        raise AnchorMissing('TemplateModel._find_path no longer globs self.dir_path (path summary invalid)')
     f = make_fx(repo)
     obj = model_obj(repo)
     f.run(init, self_obj=obj)
